@@ -1,7 +1,7 @@
 (* Props/C05.v — ||, &&, ?: are lazy and absorb failures by fixed rules; one truthiness. *)
 From Coq Require Import ZArith List Bool.
 From Rscel Require Import Base.Prims Model.Value Model.Ops Model.Funcs Model.Interp.
-From Rscel Require Import Model.Lexer Model.Ast Model.Parser Model.Compile Proofs.Blocks Proofs.BlocksAnd Proofs.Chains Proofs.MatchBlock Proofs.Truthy.
+From Rscel Require Import Model.Lexer Model.Ast Model.Parser Model.Compile Proofs.Blocks Proofs.BlocksAnd Proofs.Chains Proofs.MatchBlock Proofs.Truthy Proofs.Shapes.
 From Coq Require Strings.String.
 Import Coq.Strings.String.StringSyntax.
 Import ListNotations.
@@ -203,4 +203,73 @@ Example C05_match_shape :
                 [([IPush (VIdent #"y"); IEq], [IPush (VIdent #"a")]);
                  ([IPush (VIdent #"type"); ICall 1; IPush (VIdent #"int"); IEq], [IPush (VIdent #"b")]);
                  ([IPop; IPush (VBool true)], [IPush (VIdent #"c")])]).
+Proof. vm_compute. reflexivity. Qed.
+
+(** * The emitted code IS those blocks — for every expression, not only the examples above.
+    Resolving the label code the compiler emits for a chain of two or more `||` (`&&`) operands gives
+    [or_chain_code] ([and_chain_code]) of the resolved programs of the operands, compiled one after the
+    other in source order; likewise `?:` gives [tern_code] and match gives [match_code].  Together with
+    the block theorems above this settles laziness and absorption for every compiled program. *)
+Theorem C05_or_compiles_to_chain : forall f e n cp n',
+  c_cor f (c_expr f) e n = COk cp n' -> snd (cor_ops e) <> [] ->
+  exists cph cpt ch cts,
+    compiled_seq (c_cand f (c_expr f)) (S n) (fst (cor_ops e) :: snd (cor_ops e)) (cph :: cpt) n' /\
+    resolve (bc_of cph) = Some ch /\ Forall2 (fun c code => resolve (bc_of c) = Some code) cpt cts /\
+    resolve (bc_of cp) = Some (or_chain_code ch cts).
+Proof. exact or_compiles_to_chain_all. Qed.
+Print Assumptions C05_or_compiles_to_chain.
+
+Theorem C05_and_compiles_to_chain : forall f e n cp n',
+  c_cand f (c_expr f) e n = COk cp n' -> snd (cand_ops e) <> [] ->
+  exists cph cpt ch cts,
+    compiled_seq (c_rel f (c_expr f)) (S n) (fst (cand_ops e) :: snd (cand_ops e)) (cph :: cpt) n' /\
+    resolve (bc_of cph) = Some ch /\ Forall2 (fun c code => resolve (bc_of c) = Some code) cpt cts /\
+    resolve (bc_of cp) = Some (and_chain_code ch cts).
+Proof. exact and_compiles_to_chain_all. Qed.
+Print Assumptions C05_and_compiles_to_chain.
+
+(** c ? t : e.  A condition that is not a compile-time constant: the conditional block.  A constant
+    condition: the compiler chooses as the block would — a failure stays that failure, otherwise the
+    truthiness of the constant selects the branch's program. *)
+Theorem C05_ternary_compiles_to_block : forall f r c t e n cp n',
+  c_expr (S f) (ETernary r c t e) n = COk cp n' ->
+  exists cc ct cf n1 n2 n3,
+    c_cor f (c_expr f) c n = COk cc n1 /\ c_cor f (c_expr f) t n1 = COk ct n2 /\ c_expr f e n2 = COk cf n3 /\
+    match cp_node cc with
+    | NConst v => cp_node cp = if is_err v then NConst v else if is_truthy v then cp_node ct else cp_node cf
+    | NBytecode _ =>
+        exists c1 c2 c3, resolve (bc_of cc) = Some c1 /\ resolve (bc_of ct) = Some c2 /\ resolve (bc_of cf) = Some c3 /\
+                         resolve (bc_of cp) = Some (tern_code c1 c2 c3)
+    end.
+Proof. exact ternary_compiles_to_block_all. Qed.
+Print Assumptions C05_ternary_compiles_to_block.
+
+Theorem C05_match_compiles_to_block : forall f r c cases n cp n',
+  c_expr (S f) (EMatch r c cases) n = COk cp n' ->
+  exists cc n1 cps n2 c0 cs,
+    c_expr f c n = COk cc n1 /\ compiled_cases f (c_expr f) n1 cases cps n2 /\
+    resolve (bc_of cc) = Some c0 /\
+    Forall2 (fun pc co => resolve (fst pc) = Some (fst co) /\ resolve (bc_of (snd pc)) = Some (snd co)) cps cs /\
+    resolve (bc_of cp) = Some (match_code c0 cs).
+Proof. exact match_compiles_to_block_all. Qed.
+Print Assumptions C05_match_compiles_to_block.
+
+(** both halves in one statement, for `||` *)
+Theorem C05_or_program_evaluates : forall f e n cp n',
+  c_cor f (c_expr f) e n = COk cp n' -> snd (cor_ops e) <> [] ->
+  exists code ch cts, resolve (bc_of cp) = Some code /\ length cts = length (snd (cor_ops e)) /\
+    forall rs E d lg sva lg1 va lg2 res lg3,
+      pushes rs E d ch lg sva lg1 -> resolves rs E d sva lg1 va lg2 ->
+      chain_run rs E d true or_ va lg2 cts res lg3 ->
+      forall st, exists fu, loop rs fu E d code O st lg = (ROk (SVal res :: st), lg3).
+Proof. exact or_program_evaluates. Qed.
+Print Assumptions C05_or_program_evaluates.
+
+(** the premises are met by parsed source: a three-operand chain has two links *)
+Example C05_compiles_to_chain_somewhere :
+  match parse_program 40 #"a || b || c" with
+  | POk (EUnary _ c) _ =>
+      match c_cor 39 (c_expr 39) c O with COk _ _ => Some (length (snd (cor_ops c))) | _ => None end
+  | _ => None
+  end = Some 2%nat.
 Proof. vm_compute. reflexivity. Qed.
